@@ -15,7 +15,7 @@ func (s *state) accStr(t *rapid.T, min, max int) *ast.Node {
 	for i := range r {
 		switch rapid.IntRange(0, 11).Draw(t, "strk") {
 		case 0:
-			r[i] = rapid.SampledFrom([]rune{'é', 'λ', '日', 0x1F600, 'Ж'}).Draw(t, "wide")
+			r[i] = rapid.SampledFrom([]rune{'é', 'λ', '日', 0x1F600, 'Ж', 0xFFFD}).Draw(t, "wide")
 		case 1:
 			if i > 0 {
 				r[i] = r[i-1] // repeated characters stress shift tables
@@ -187,7 +187,11 @@ func Accel(t *rapid.T, cfg Cfg) *ast.Node {
 	case 9: // counted group
 		c := rapid.IntRange(2, 3).Draw(t, "cnt")
 		return ast.Seq(ast.Quant(ast.Group(ast.GNon, ast.Seq(s.accStr(t, 1, 2), ast.Quant(ast.Lit(rapid.SampledFrom(accelLetters).Draw(t, "ch")), 0, -1, false))), c, c+rapid.IntRange(0, 1).Draw(t, "span"), false), tail())
-	case 10: // leading loop (bump-along) then something
+	case 10: // leading loop (bump-along) then something, possibly inside an atomic group
+		if rapid.IntRange(0, 2).Draw(t, "inatomic") == 0 {
+			inner := ast.Seq(ast.Quant(s.smallSet(t), rapid.IntRange(0, 1).Draw(t, "lmin"), -1, rapid.Bool().Draw(t, "llazy")), s.node(t, 1))
+			return ast.Seq(ast.Group(ast.GAtomic, inner), s.node(t, 1))
+		}
 		return ast.Seq(ast.Quant(s.smallSet(t), rapid.IntRange(0, 1).Draw(t, "lmin"), -1, rapid.Bool().Draw(t, "llazy")), s.node(t, 2))
 	case 11: // long literal (Boyer-Moore)
 		return ast.Seq(s.accStr(t, 4, 10), tail())
